@@ -7,10 +7,25 @@ Driver glue for M-Sort: S-expression ⇄ `NameSort.sortGlyphNames`.  Not part of
 
 The look-up tables of `env` were tabulated by the harness from the real `UnicodeData`; a sort that
 needs an entry the table does not have answers `(err missing-lookup)` — never a default.
+
+Since round 3 the harness sends the WORLD instead and the model derives the look-ups itself (M-Lookups,
+`NameLookups.envOf`), with the open/close tables regenerated from the code (`Gen/OpenClose.lean`):
+
+  (world (names n …) (unicodes (n u …) …) (cmap (u n …) …)
+         (db (v category script block compat (part …)) …))       → ok
+  (look n …)      → (rows (row uni? pseudo? cat0 cat1 scr0 scr1 blk0 blk1 close0? close1? open0? open1? base0 base1 infont) …)
+  (forced n)      → (ok v) | (err RecursionError)          -- forcedUnicodeForGlyphName: may allocate
+  (byforced v)    → (ok name?) | (err IndexError)          -- glyphNameForForcedUnicode
+  (state)         → (state (cmap (u n …) …) (forced (n v) …) (codes (v n) …))
+
+A call that needs a fact of the Unicode database about a code point the `db` table has no row for answers
+`(err missing-lookup)`.  The old `(env …)` line is still understood.
 -/
 import DefconModel.Util.SExp
 import DefconModel.NameSort
+import DefconModel.NameLookups
 import DefconModel.Gen.SortTables
+import DefconModel.Gen.OpenClose
 
 namespace DefconModel
 namespace NameSort
@@ -34,6 +49,10 @@ structure DState where
   decomp : List (Nat × Int) := []
   cmap : List (Int × Option Name) := []
   loaded : Bool := false
+  /-- round 3: the font, its cmap and forced tables … -/
+  world : Option NameLookups.UData := none
+  /-- … and the rows of the Unicode database the harness sent -/
+  db : List NameLookups.DBRow := []
 
 def missing : String := "\x00missing"
 
@@ -93,20 +112,115 @@ def DState.covers (s : DState) (names : List Name) : Bool :=
           | some d => (AL.get? s.cmap d).isSome
       ok r.uni && ok r.pseudo)
 
+/-! ### round 3: the world, look-ups derived by the model -/
+
+open NameLookups in
+def DState.uniDB (s : DState) : UniDB := tableDB s.db Gen.OpenClose.openToClose Gen.OpenClose.closeToOpen
+
+open NameLookups in
+/-- the code points whose decomposition `unicodeTools.decompositionBase v` may read -/
+def decompClosure (db : UniDB) : Nat → Nat → List Nat
+  | 0, v => [v]
+  | fuel + 1, v => v :: (db.decomposition v).parts.flatMap (decompClosure db fuel)
+
+open NameLookups in
+/-- every code point a look-up / sort over `names` asks the Unicode database about has a row -/
+def worldCovers (s : DState) (w : UData) (names : List Name) : Bool :=
+  names.all (fun n =>
+    [unicodeFor w n, pseudoUnicodeFor w n].all (fun v =>
+      match v with
+      | none => true
+      | some x => (decompClosure s.uniDB decompFuel x).all (fun c => (rowOf s.db c).isSome)))
+
+def parseNameCodes : SExp → Option (Name × List Nat)
+  | .list (n :: us) => do some (← asStr? n, ← us.mapM asNat?)
+  | _ => none
+
+def parseCodeNames : SExp → Option (Nat × List Name)
+  | .list (u :: ns) => do some (← asNat? u, ← ns.mapM asStr?)
+  | _ => none
+
+def parseDBRow : SExp → Option NameLookups.DBRow
+  | .list [v, c, sc, b, compat, .list parts] => do
+    some { cp := ← asNat? v, cat := ← asStr? c, script := ← asStr? sc, block := ← asStr? b,
+           decomp := { compat := ← asBool? compat, parts := ← parts.mapM asNat? } }
+  | _ => none
+
+def ofResName : NameLookups.Res Name → SExp
+  | .ok n => .str n
+  | .raised e => err e
+
+open NameLookups in
+def lookRow (db : UniDB) (w : UData) (n : Name) : SExp :=
+  tagged "row" [
+    ofOpt ofNat (unicodeFor w n), ofOpt ofNat (pseudoUnicodeFor w n),
+    .str (categoryFor db w n false), .str (categoryFor db w n true),
+    .str (scriptFor db w n false), .str (scriptFor db w n true),
+    .str (blockFor db w n false), .str (blockFor db w n true),
+    ofOpt .str (closeRelativeFor db w n false), ofOpt .str (closeRelativeFor db w n true),
+    ofOpt .str (openRelativeFor db w n false), ofOpt .str (openRelativeFor db w n true),
+    ofResName (decompositionBaseFor db w n false), ofResName (decompositionBaseFor db w n true),
+    ofBool (inFont w n)]
+
+open NameLookups in
+def worldStep (s : DState) (w : UData) (line : SExp) : DState × SExp :=
+  match line with
+  | .list [.atom "sort", .list names, .list descs] =>
+    match names.mapM asStr?, descs.mapM parseDesc with
+    | some ns, some ds =>
+      if !worldCovers s w ns then (s, err "missing-lookup")
+      else (s, tagged "ok" ((sortFont s.uniDB w Gen.SortTables.tables ds ns).map .str))
+    | _, _ => (s, .atom "bad-op")
+  | .list (.atom "look" :: names) =>
+    match names.mapM asStr? with
+    | some ns =>
+      if !worldCovers s w ns then (s, err "missing-lookup") else (s, tagged "rows" (ns.map (lookRow s.uniDB w)))
+    | none => (s, .atom "bad-op")
+  | .list [.atom "forced", .str n] =>
+    match ask s.uniDB w (.forcedUnicode n) with
+    | (w', .code (some v)) => ({ s with world := some w' }, tagged "ok" [ofNat v])
+    | (w', .raised e) => ({ s with world := some w' }, err e)
+    | _ => (s, .atom "bad-op")
+  | .list [.atom "byforced", v] =>
+    match asNat? v with
+    | some v =>
+      match nameForForced w v with
+      | .ok r => (s, tagged "ok" [ofOpt .str r])
+      | .raised e => (s, err e)
+    | none => (s, .atom "bad-op")
+  | .list [.atom "state"] =>
+    (s, tagged "state" [
+      tagged "cmap" (w.cmap.map (fun p => .list (ofNat p.1 :: p.2.map .str))),
+      tagged "forced" (w.forcedByName.map (fun p => .list [.str p.1, ofNat p.2])),
+      tagged "codes" (w.forcedByCode.map (fun p => .list [ofNat p.1, .str p.2]))])
+  | _ => (s, .atom "bad-op")
+
 def driverStep (s : DState) (line : SExp) : DState × SExp :=
   match line with
+  | .list [.atom "world", .list (.atom "names" :: names), .list (.atom "unicodes" :: unis),
+           .list (.atom "cmap" :: cm), .list (.atom "db" :: rows)] =>
+    match names.mapM asStr?, unis.mapM parseNameCodes, cm.mapM parseCodeNames, rows.mapM parseDBRow with
+    | some ns, some us, some c, some d =>
+      ({ world := some { names := ns, unicodes := us, cmap := c }, db := d }, .atom "ok")
+    | _, _, _, _ => (s, .atom "bad-op")
   | .list [.atom "env", .list (.atom "names" :: rows), .list (.atom "font" :: font),
            .list (.atom "decomp" :: dec), .list (.atom "cmap" :: cm)] =>
     match rows.mapM parseRow, font.mapM asStr?, dec.mapM parsePairNI, cm.mapM parsePairIN with
     | some r, some f, some d, some c => ({ rows := r, font := f, decomp := d, cmap := c, loaded := true }, .atom "ok")
     | _, _, _, _ => (s, .atom "bad-op")
   | .list [.atom "sort", .list names, .list descs] =>
-    match names.mapM asStr?, descs.mapM parseDesc with
-    | some ns, some ds =>
-      if !s.loaded || !s.covers ns then (s, err "missing-lookup")
-      else (s, tagged "ok" ((sortGlyphNames s.env Gen.SortTables.tables ds ns).map .str))
-    | _, _ => (s, .atom "bad-op")
-  | _ => (s, .atom "bad-op")
+    match s.world with
+    | some w => worldStep s w line
+    | none =>
+      match names.mapM asStr?, descs.mapM parseDesc with
+      | some ns, some ds =>
+        if !s.loaded || !s.covers ns then (s, err "missing-lookup")
+        else (s, tagged "ok" ((sortGlyphNames s.env Gen.SortTables.tables ds ns).map .str))
+      | _, _ => (s, .atom "bad-op")
+  | _ =>
+    match s.world with
+    | some w => worldStep s w line
+    | none => (s, .atom "bad-op")
 
 end NameSort
 end DefconModel
